@@ -115,6 +115,20 @@ func account(rep *hx.Report, res *policy.CaseResult, kind string) {
 		if w[0] != "pol" {
 			continue
 		}
+		if res.InFrag > 0 { // which widened parts of the fragment the in-fragment flows of this case rest on
+			rules := w[6] + ";" + w[7]
+			if strings.Contains(rules, "pod:") {
+				rep.Hit("in-fragment-case:podSelector-peer")
+			}
+			if strings.Contains(rules, "both:") {
+				rep.Hit("in-fragment-case:both-selectors-peer")
+			}
+			for _, part := range strings.Split(rules, ";") {
+				if strings.Count(part, "ip:") > 1 && strings.Contains(part, "!") {
+					rep.Hit("in-fragment-case:several-ipBlocks-with-except")
+				}
+			}
+		}
 		rep.Hit("policy-types:" + w[5])
 		for _, part := range strings.Split(w[6]+";"+w[7], ";") {
 			if part == "-" {
